@@ -2,7 +2,7 @@
 (* Trace validation for C47: the events of Paje trace files written by real SimGrid runs (converted line by line by the   *)
 (* generic %EventDef-driven converter of checks/C47.py) are replayed with the actions of module Paje.  An event that is   *)
 (* enabled is applied; an event that is not is reported -- PrintT(<<"REJECT", line, reason, reason apart from the date,   *)
-(* kind of the event holding the latest date, event>>), the reasons being Why(p, ev), evaluated here by TLC -- and          *)
+(* kind of the event holding the latest date, "reincarnated" if the container bears the name of an earlier one, event>>), the reasons being Why(p, ev), evaluated here by TLC -- and          *)
 (* skipped, so that one pass reports every ill-formed event of every file.                                                  *)
 (* TRACE = ndjson; a line {"e":"Reset"} starts a new file.  PajeInv is checked in every state.                            *)
 EXTENDS Paje, Json, IOUtils, TLC
@@ -21,7 +21,8 @@ TApply == /\ More /\ Ln.e # "Reset" /\ En(p, Ln) /\ p' = Apply(p, Ln) /\ l' = l 
 \* an event whose only fault is its timestamp is applied all the same (otherwise a late PushState would make the next
 \* PopState look unbalanced); any other ill-formed event is skipped
 TStuck == /\ More /\ Ln.e # "Reset" /\ ~En(p, Ln)
-          /\ PrintT(<<"REJECT", l, Why(p, Ln), WhyUntimed(p, Ln), p.lastk, ToJson(Ln)>>)
+          /\ PrintT(<<"REJECT", l, Why(p, Ln), WhyUntimed(p, Ln), p.lastk,
+                     IF Ln.container \in p.reinc THEN "reincarnated" ELSE "", ToJson(Ln)>>)
           /\ p' = IF WhyUntimed(p, Ln) = "ok" THEN Apply(p, Ln) ELSE p
           /\ l' = l + 1 /\ nrej' = nrej + 1
 
